@@ -29,6 +29,7 @@ type evalEnv struct {
 	calleeCt   *FuncContract
 	dry        bool
 	macroDepth int
+	loop       *loopInfo // the loop whose invariant / variant is being evaluated (binds rangeindex / rangelen)
 }
 
 func (e *evalEnv) with(cur *state) *evalEnv {
@@ -289,6 +290,20 @@ func (g *fnGen) eval(e SExpr, env *evalEnv) (string, types.Type, error) {
 }
 
 func (g *fnGen) localByName(name string, env *evalEnv) (ssa.Value, bool) {
+	if name == "rangeindex" && env != nil && env.loop != nil {
+		// in a loop's own invariant the hidden index is that loop's, not the one of a nested range loop
+		// the current block happens to sit behind
+		for _, ins := range env.loop.header.Instrs {
+			if st, ok := ins.(*ssa.Store); ok {
+				if al, ok := st.Addr.(*ssa.Alloc); ok && al.Comment == "rangeindex" {
+					return al, true
+				}
+			}
+			if phi, ok := ins.(*ssa.Phi); ok && phi.Comment == "rangeindex" {
+				return phi, true
+			}
+		}
+	}
 	var best ssa.Value
 	var bestBlock *ssa.BasicBlock
 	for _, b := range g.fn.Blocks {
@@ -872,6 +887,27 @@ func (g *fnGen) evalCall(x *SCall, env *evalEnv) (string, types.Type, error) {
 			return S(g.R.implSym(ty), S("i-tag", v)), tBool_, nil
 		}
 		return S("=", S("i-tag", v), fmt.Sprint(g.R.tagOf(ty))), tBool_, nil
+	case "as":
+		// as(e, T): the T held by the interface value e (meaningful where istype(e, T) holds)
+		if err := argn(2); err != nil {
+			return "", nil, err
+		}
+		v, _, err := g.eval(x.Args[0], env)
+		if err != nil {
+			return "", nil, err
+		}
+		te, ok := x.Args[1].(*STypeExpr)
+		if !ok {
+			return "", nil, fmt.Errorf("as: second argument must be a type")
+		}
+		ty, err := g.P.resolveType(te.Text, env.scopePkg(), env.imports())
+		if err != nil {
+			return "", nil, err
+		}
+		if _, isIface := ty.Underlying().(*types.Interface); isIface {
+			return v, ty, nil
+		}
+		return g.R.unboxT(ty, S("i-val", v)), ty, nil
 	case "typeof":
 		if err := argn(1); err != nil {
 			return "", nil, err
